@@ -193,13 +193,20 @@ class P(Prop):
         "name in different directories 45 %, order given not the sorted path order in >= 80 % of the multi-file cases), "
         "8 % / 6 % list an evidence / result file twice; entry point per case: update_evidence_files 25 %, "
         "pipeline.run_update_evidence 18 % (needs a result file), python -m subprocess 1.5 %, main(argv) the rest; "
+        "evidence files are TEXT: 65 % written in a style of their own (quoting minimal / all / MaxQuant-lenient / mixed, CRLF / LF / CR, "
+        "with or without final line end, BOM 15 %); 55 % of the cases carry cells from a 32-value list of everything the dialect can "
+        "carry (quotes inside / leading / doubled, comma, semicolon, blanks, empty, non-ASCII incl. non-BMP, tab, CR, LF) in free "
+        "columns, 0-3 extra columns with such header names, raw-file names / modified sequences with quotes or blanks; the Type cell "
+        "takes all 7 MaxQuant values independently of the scan-number cell in 60 % of the cases; "
         "non-trivial = non-empty results and at least one rewritten "
         "and one dropped-or-MBR row; distinct by sha1 of the case"
     )
     assumptions = [
         "score / PEP fields are Python float literals; csv writes repr(float(x)) for the rescored values (harness converts with repr(float(.)))",
         "scan numbers are ASCII [+-]digits (Python int() also accepts white space, '_' separators, non-ASCII digits: outside the model)",
-        "headers are ASCII (str.lower == ASCII lower-casing); fields contain no tab, quote, CR or LF (csv quoting is outside C15)",
+        "the names of the columns the merge looks up are ASCII; other header cells may hold any character that str.lower() does not map into ASCII (not U+212A KELVIN SIGN, U+0130)",
+        "the output file is written with the locale's encoding (get_tsv_writer opens it without one): the check runs in Python's UTF-8 mode and decodes it as UTF-8",
+        "result files (Percolator / mokapot) are handed to the model as rows of cells: their csv layer (tab or comma by extension) is the harness's csv.writer and the code's reader, not the Lean reader",
         "Andromeda-style identifiers (--pout_input_type andromeda); prosit identifiers and --mq_input_type peptides are outside the property",
     ]
 
